@@ -175,7 +175,7 @@ def ev_avail(tid, ob: Optional[Obj], kind: str, *, hand=None, seat=None,
     return e
 
 
-def ev_choose(tid, ob: Obj, hand: Sequence[int], r) -> Dict[str, Any]:
+def ev_choose(tid, ob: Obj, hand: Sequence[int], r, system=None) -> Dict[str, Any]:
     import random as _random
     from bridge_env.network_bridge.playing_system import RandomPlay
     e: Dict[str, Any] = {'tid': tid, 'ev': 'choose', 'o': ob.o,
@@ -183,7 +183,7 @@ def ev_choose(tid, ob: Obj, hand: Sequence[int], r) -> Dict[str, Any]:
     st = _random.getstate()
     _random.seed(r.randrange(1 << 30))
     try:
-        out = RandomPlay().play({card(c) for c in hand}, ob.obj)
+        out = (system or RandomPlay()).play({card(c) for c in hand}, ob.obj)
         e['res'] = 'ok'
         e['out'] = cnum(out)
     except Exception:  # noqa
@@ -628,6 +628,40 @@ def run_into(chk: Check, pid: str, tier: str) -> None:
             events.extend(evs)
         chk.extra['playable_table'] = {'pack': pack, 'hands': len(hands),
                                        'full_size_hands': len(big)}
+
+    if pid == 'C06':
+        # one example player object serving two tables at the same time (its
+        # interface is stateless): every line-level preemption of a decision
+        # for table A by a run of decisions for table B
+        from . import race
+
+        def make_calls():
+            from bridge_env.network_bridge.playing_system import RandomPlay
+            shared = RandomPlay()
+            rr = rng('race', sd)
+
+            def mk(tag, deal, trump, decl, n):
+                def call():
+                    out = []
+                    ob = Obj(1, 'plain', NOSEAT, deal, trump, decl)
+                    out.append(ev_new(tag, ob, deal, trump, decl))
+                    hands = [set(h) for h in deal]
+                    for _ in range(n):
+                        a = ob.proj()['active']
+                        e = ev_choose(tag, ob, sorted(hands[a]), rr, shared)
+                        out.append(e)
+                        if e['res'] != 'ok' or e['out'] not in hands[a]:
+                            break
+                        out.append(ev_play(tag, ob, a, e['out']))
+                        hands[a].discard(e['out'])
+                    return out
+                return call
+            # whole suits in each hand, the two tables rotated against each
+            # other: a card chosen for the other table is never held here
+            da = [list(range(13 * k, 13 * k + 13)) for k in range(4)]
+            db = [list(range(13 * ((k + 1) % 4), 13 * ((k + 1) % 4) + 13)) for k in range(4)]
+            return mk('ra', da, NT, 0, 2), mk('rb', db, 1, 0, 9)
+        events.extend(race.run_race(chk, 'RandomPlay shared by two tables', make_calls, 150))
 
     # coverage book-keeping
     seen = set()
